@@ -1028,6 +1028,16 @@ class Run:
                     if self.judge(name, None, exp, None, s) and xs:
                         self.accepted += 1
                     del old_items
+                    if isinstance(arg, stg.Cadence) and len(xs) >= 1 and not self.dead:
+                        # built from another cadence: the two hold their frames like two lists -- what is done to the source
+                        # afterwards is not done to the new one
+                        R.bucket('construct:source-cadence-changed-afterwards')
+                        before_new = self.res_items(new)
+                        arg.pop()
+                        if len(xs) >= 2:
+                            arg.insert(0, arg[len(arg) - 1])
+                        self.ok(self.res_items(new) == before_new, 'construct:new-cadence-shares-frame-list-with-source', step=s,
+                                want=before_new, got=self.res_items(new))
         elif name == 'getint':
             i = op['i']
             got = None
@@ -1154,7 +1164,8 @@ def required(tier):
     b = {'kind:plain': 1000, 'kind:ordered': 1000, 'compared:len>=2': 10000, 'aggregate:members-with-different-tchans': 10000}
     for op in MUT_OPS + SEL_OPS + ORD_OPS:
         b['op:' + op] = 80
-    b.update({'selection-used-as-a-cadence:slice': 40, 'selection-used-as-a-cadence:index-array': 40})
+    b.update({'selection-used-as-a-cadence:slice': 40, 'selection-used-as-a-cadence:index-array': 40,
+              'construct:source-cadence-changed-afterwards': 40})
     for op in ('insert', 'setitem', 'delitem', 'pop', 'getint'):
         for ic in IDX_CLASSES:
             b[f'idx:{op}:{ic}'] = 60
